@@ -21,7 +21,7 @@ from tools.gen import luagen
 LEVEL = "proof"
 MANIFEST = dict(
     category="proof",
-    text="Lean 4 theorems (51, no hypotheses on size) over a hand model of wrapl.Wrapl.wrap_function/do_function/wrap_functions "
+    text="Lean 4 theorems (57, no hypotheses on size) over a hand model of wrapl.Wrapl.wrap_function/do_function/wrap_functions "
          "(all_calls = one call per overload and per omitted-default prefix, by_count, the emitted switch/if-chain with its lua_type "
          "tests, pop indices, object index, result counts, luaL_Reg tables) and of what the emitted skeleton does on a Lua stack. "
          "dispatch_correct: for EVERY Lua name (one signature or many; free function, constructor, method, destructor), every "
@@ -50,6 +50,13 @@ MANIFEST = dict(
          "struct and metatable name (class_arg_own_class, class_arg_found_is_the_type, constructed_accepted_as_named_argument), "
          "an unknown type takes the foreign path (class_arg_unknown_is_foreign), for any keying the class found has the key asked "
          "for (class_arg_found_has_key) and keyed by the unqualified name the statement is false (unqualified_key_confuses); "
+         "registration tables: with pairwise distinct Lua names every function group and constructor group of the module table "
+         "reaches its own dispatcher (moduleRegs_reaches; classRegs_reaches for method tables), with equal names the earlier one is "
+         "unreachable (equal_names_earlier_unreachable); default names (userdata typedef, luaL_Reg array, metatable, constructor "
+         "name) are functions of the unqualified class name: equal iff the unqualified names are equal (default_names_eq_iff), "
+         "two same-named classes of different namespaces define the typedef and the array twice whatever else is wrapped "
+         "(same_unqualified_name_clashes), distinct names never clash (distinct_default_names_no_redefinition), a shared metatable "
+         "name makes each class accept the other's objects (shared_metatable_name_confuses); "
          "objects: a constructor's userdata passes the object test of its own class only (method_on_constructed / "
          "method_on_foreign_object), any number of __gc calls runs the destructor once (gc_runs_destructor_once). No _partial "
          "statement is left; *_before_fix / old_* theorems are negation witnesses for the bodies written before the fix: commits.",
@@ -62,7 +69,10 @@ MANIFEST = dict(
          "class node's LUA_metadata; (D4) the class index of every class-pointer parameter in the `gen` request is the answer of the "
          "Lean classArgPop (driver op argcls) on the typemap names of the wrapped classes in Shroud's JSON dump, so the emitted "
          "metatable name per class argument (and the userdata struct it is read through, against the class's LUA_userdata_type) is "
-         "compared with the model's resolution; (D3) the outcome of "
+         "compared with the model's resolution; (D5) library luaclash (two same-named classes, no overrides, every run): the four "
+         "default names of every pair of class nodes in the JSON dump coincide iff the unqualified names do (evaluated in the "
+         "harness, not through the driver), and the oracle reads the duplicate typedef / array / metatable / constructor names "
+         "from the emitted files and compiles them: open finding class-name-clash (does not compile); (D3) the outcome of "
          "the compiled binding on the emulator == Lean `run`. Oracle (no model): the binding compiled with g++ against "
          "tools/ccheck/luaemu and an instrumented library, called with every offered signature (every arity from the first default "
          "to all parameters), one-tag-off variants at every position, wrong counts, random shapes, wrong/foreign/missing objects, "
@@ -137,6 +147,13 @@ THEOREMS = {
         "Shroud.LuaDispatch.class_arg_found_is_the_type",
         "Shroud.LuaDispatch.unqualified_key_confuses",
         "Shroud.LuaDispatch.constructed_accepted_as_named_argument",
+        # registration tables and default names: distinct names <-> own dispatcher; same unqualified class name -> clash
+        "Shroud.LuaDispatch.moduleRegs_reaches",
+        "Shroud.LuaDispatch.equal_names_earlier_unreachable",
+        "Shroud.LuaDispatch.default_names_eq_iff",
+        "Shroud.LuaDispatch.same_unqualified_name_clashes",
+        "Shroud.LuaDispatch.distinct_default_names_no_redefinition",
+        "Shroud.LuaDispatch.shared_metatable_name_confuses",
         # the namespace tree: which scopes are visited, registration completeness at any depth
         "Shroud.LuaDispatch.visit_independent_of_content",
         "Shroud.LuaDispatch.visit_all",
@@ -1235,6 +1252,46 @@ def check_library(ctx, lib, d, emu_o, drv, r, thorough, stats, ok_lean):
     ctx.sample({"library": lib.name, "cmd": plan.cmds[k], "answer": out[k]})
 
 
+def check_clash_library(ctx, lib, d, emu_o, stats):
+    """Same-named classes of different namespaces with default names.  Tie: the four default names of two
+    classes coincide exactly when the unqualified names do (Lean defaultNamesOf / default_names_eq_iff,
+    same_unqualified_name_clashes), read from the class nodes of Shroud's JSON dump.  Oracle: the emitted
+    header/module define one identifier twice (and do not compile) or register one name for two classes."""
+    text, hdr = emit(lib, d)
+    cinfo = class_info(os.path.join(d, lib.name + ".json"))
+    ctx.count(len(cinfo) * (len(cinfo) - 1) // 2)
+    bad = []
+    for i in range(len(cinfo)):
+        for j in range(i + 1, len(cinfo)):
+            a, b = cinfo[i], cinfo[j]
+            for fld in ("udt", "reg", "meta", "ctor"):
+                if (a[fld] == b[fld]) != (a["name"] == b["name"]):
+                    bad.append({"classes": [a["qname"], b["qname"]], "field": fld, "values": [a[fld], b[fld]]})
+    stats["default_name_pairs"] += len(cinfo) * (len(cinfo) - 1) // 2
+    if bad:
+        ctx.tie_broken("lua-default-names", bad[:4])
+    t = _strip_comments(text)
+    h = _strip_comments(hdr or "")
+    udts = re.findall(r"\}\s*(\w+);", h)
+    regs = re.findall(r"static const struct luaL_Reg (\w+) \[\]", t)
+    metas = re.findall(r'luaL_newmetatable\(L, "([^"]*)"\)', t)
+    funcs, rtabs, _, modreg = split_module(text)
+    modnames = [n for n, _ in rtabs.get(modreg, [])]
+
+    def dups(l):
+        return sorted(set(x for x in l if l.count(x) > 1))
+
+    found = {"typedef": dups(udts), "luaL_Reg array": dups(regs), "metatable": dups(metas), "module table name": dups(modnames)}
+    if any(found.values()):
+        exe, log = build_binding(lib, d, emu_o)
+        what = ("classes %s have the same unqualified name and no format overrides: defined/registered twice: %s; the binding %s" % (
+            [ci["qname"] for ci in cinfo], {k: v for k, v in found.items() if v},
+            "does not compile" if exe is None else "compiles and the classes share one metatable / the earlier constructor is unreachable"))
+        ctx.fail("class-name-clash:" + ",".join(sorted(set(sum(found.values(), [])))), what,
+                 {"yaml": lib.yaml(), "header": lib.header()})
+        stats["name_clash_libraries"] += 1
+
+
 def libraries(r, thorough):
     libs = [luagen.fixed_lualib("luafix")]
     n = 40 if thorough else 3
@@ -1277,7 +1334,7 @@ def run(ctx):
     ]
     check_tables_ok = None
     stats = dict(groups=0, switch=0, single=0, gen_disagree=0, run_disagree=0, calls=0, matching=0, nonmatching=0,
-                 violations=0, known=0, libraries=0, reg_tables=0, reg_entries=0, meta_sites=0, custom_meta_classes=0, empty_method_table_classes=0, gc_twice=0, class_args_resolved=0, same_name_class_libraries=0, class_arg_calls_right_class=0, class_arg_calls_wrong_class=0, wide_late_defaults=0, shape_hist={}, arity_hist={}, default_hist={}, scope_hist={})
+                 violations=0, known=0, libraries=0, reg_tables=0, reg_entries=0, meta_sites=0, custom_meta_classes=0, empty_method_table_classes=0, gc_twice=0, default_name_pairs=0, name_clash_libraries=0, class_args_resolved=0, same_name_class_libraries=0, class_arg_calls_right_class=0, class_arg_calls_wrong_class=0, wide_late_defaults=0, shape_hist={}, arity_hist={}, default_hist={}, scope_hist={})
     d0 = common.scratch()
     try:
         emu_o = build_emulator(d0)
@@ -1292,6 +1349,12 @@ def run(ctx):
         for _, tag, nm in corpus_seeds:
             libs.append(luagen.gen_lualib(random.Random(tag), nm, rich=True))
         libs += libraries(r, thorough)
+        try:
+            dcl = os.path.join(d0, "luaclash")
+            os.makedirs(dcl, exist_ok=True)
+            check_clash_library(ctx, luagen.clash_lualib("luaclash"), dcl, emu_o, stats)
+        except (RuntimeError, OSError, ValueError, KeyError) as e:
+            ctx.tie_broken("lua-default-names", "luaclash: %s: %s" % (type(e).__name__, e))
         for lib in libs:
             d = os.path.join(d0, lib.name)
             os.makedirs(d, exist_ok=True)
